@@ -8,9 +8,11 @@ from registry import CHECKS, NOT_APPLICABLE
 props = [json.loads(l)["id"] for l in open(os.path.join(ROOT, "properties.jsonl"))]
 baseline = json.load(open("/root/.vp/BASELINE.json"))["cmd"]
 hooks = []
-hp = os.path.join(ROOT, "hooks_commits.txt")
-if os.path.exists(hp):
-    hooks = [l.split()[0] for l in open(hp) if l.strip() and not l.startswith("#")]
+try:
+    out = subprocess.check_output(["git", "-C", "/repo", "log", "--format=%h %s"], text=True)
+    hooks = [l.split()[0] for l in out.splitlines() if l.split(" ", 1)[1].startswith("verif-hooks")]
+except Exception:
+    pass
 
 checks = []
 for pid in props:
